@@ -3,6 +3,7 @@ import random
 
 import compat  # noqa: F401
 import accfg_common as ac
+import accfg_links as al
 import snaxrun
 from framework import Prop
 
@@ -11,20 +12,75 @@ def trace_states(src):
     return snaxrun.run_passes(src, "accfg-trace-states")
 
 
-class C07(Prop):
+class LinksMixin:
+    """case kind "links": the threading pass and the link-following inference INSIDE the model (Model/AccfgLinks.lean).
+    impl: the untraced input converted to the pre-linked IR (PBlock), the REAL traced IR converted to the linked IR (LBlock,
+    canonical state ids), real `infer_state_of` of EVERY state value and at every setup / launch.
+    model: `weave` of the PBlock (must equal the real link structure), `inferL` on it and on the converted real IR."""
+
+    def links_impl(self, case):
+        try:
+            m0 = snaxrun.parse(case["src"])
+            m0.verify()
+        except Exception as e:
+            return {"invalid_input": type(e).__name__}
+        try:
+            cp = al.ConvP(ac.find_func(m0))
+        except ac.Unsupported as e:
+            return {"unmodelled": str(e)}
+        traced = trace_states(case["src"])
+        f = ac.find_func(snaxrun.parse(traced))
+        try:
+            cl = al.ConvL(f)
+        except ac.Unsupported as e:
+            return {"unmodelled": "traced: " + str(e)}
+        return {"P": cp.body, "L": cl.body, "infer": cl.real_inference(), "annot": ac.real_inference_at_points(cl)}
+
+    def links_requests(self, case, impl_out):
+        if "P" not in impl_out:
+            return []
+        return [{"fn": "c07links.weave", "args": {"body": impl_out["P"]}},
+                {"fn": "c07links.infer", "args": {"body": impl_out["L"]}}]
+
+    def links_model(self, case, answers, impl_out):
+        if "P" not in impl_out:
+            return impl_out
+        w, i = answers
+        if "err" in w or "err" in i:
+            return {"model_error": w.get("err") or i.get("err")}
+        w, i = w["ok"], i["ok"]
+        if not w["wf"] or not w["nodup"]:
+            return {"model_error": "converted program violates the theorems' well-formedness predicates", "wf": w["wf"], "nodup": w["nodup"]}
+        out = {"P": impl_out["P"], "L": w["woven"], "infer": al.canon_states(w["infer"]),
+               "annot": [sorted(x) if isinstance(x, list) else x for x in w["annot"]]}
+        # the same inference on the converted REAL traced IR (meaningful also when the link structures differ)
+        real_l = {"infer": al.canon_states(i["infer"]), "annot": [sorted(x) if isinstance(x, list) else x for x in i["annot"]]}
+        if real_l["infer"] != impl_out["infer"] or real_l["annot"] != impl_out["annot"]:
+            out["inferL_on_real_links"] = real_l
+        return out
+
+
+class C07(LinksMixin, Prop):
     id = "C07"
+    module = "SnaxVerif.Props.C07Links"  # imports Props.C07
     PARALLEL = True
     USES_IMPL = True
     CASE_TIMEOUT = 60
     trusted_base = [
-        "modelled: infer_state_of / state_intersection (trace_acc_state.py, with F1) as the forward analysis knownB; "
-        "_weave_states_in_region (convert_linalg_to_accfg.py, with F2) is NOT modelled syntactically: its output is "
-        "validated per program by comparing infer_state_of at every setup/launch with knownB of the erased program",
+        "modelled: infer_state_of / state_intersection (trace_acc_state.py) twice: as the forward analysis knownB on the IR with "
+        "state values erased (Model/Accfg.lean) and as the link-following inferL with the assume dictionary on the linked IR "
+        "(Model/AccfgLinks.lean); _weave_states_in_region (convert_linalg_to_accfg.py) as `weave` on the linked IR; the theorem "
+        "weave_links_agree relates the two for all programs; correspondence: real links = weave (up to renaming of state values and "
+        "the order of scf.if results), real infer_state_of = inferL at EVERY state value, = knownB at every setup/launch",
+        "the state dictionary of the pass is modelled as a total function accelerator -> optional state value; candidate accelerators "
+        "for new scf.if results are those set up in a branch (sorted) instead of Python dict order",
         "abstract CSR machine (harness/accfg_common.py) = oracle semantics, cross-checked against the Lean execB on every case",
     ]
     assumptions = [
         "hardware: a launch observes all registers of its accelerator; an unannotated call may change every register",
         "programs: setups, launches, awaits, arith, calls without operands, scf.if without data results, scf.for without data iter_args",
+        "linked model: input loops / conditionals carry no state values yet (pre-existing links only on setups); launches are judged when "
+        "they follow the setup of their accelerator in straight-line code (the pass never re-links a launch)",
     ]
     rule = ("random structured programs before state tracing (<=2 accelerators, depth<=3, full or partial setups, calls with and "
             "without effects<none>); non-trivial = contains control flow and at least one non-empty assumed state")
@@ -35,8 +91,16 @@ class C07(Prop):
             g = ac.Gen(random.Random(rng.getrandbits(48)), full=rng.random() < 0.6, depth=rng.choice([1, 2, 2, 3]),
                        prethread=rng.random() < 0.25, carried=rng.choice([0.0, 0.0, 0.5]))
             yield {"kind": "trace", "src": g.program(), "xseed": rng.getrandbits(32)}
+        # the same generator, second stream: links of the real pass vs `weave`, real infer_state_of vs `inferL`
+        n = 500 if tier == "quick" else 6000
+        for i in range(n):
+            g = ac.Gen(random.Random(rng.getrandbits(48)), full=rng.random() < 0.6, depth=rng.choice([1, 2, 2, 3]),
+                       prethread=rng.random() < 0.4, carried=rng.choice([0.0, 0.0, 0.0, 0.5]))
+            yield {"kind": "links", "src": g.program(), "xseed": rng.getrandbits(32)}
 
     def impl(self, case):
+        if case.get("kind") == "links":
+            return self.links_impl(case)
         try:
             snaxrun.parse(case["src"]).verify()
         except Exception as e:
@@ -57,6 +121,8 @@ class C07(Prop):
         return {"prog": prog, "points": points, "execs": execs}
 
     def requests(self, case, impl_out):
+        if case.get("kind") == "links":
+            return self.links_requests(case, impl_out)
         if "raised" in impl_out or "invalid_input" in impl_out or "unmodelled" in impl_out:
             return []
         p = impl_out["prog"]
@@ -66,6 +132,8 @@ class C07(Prop):
         return reqs
 
     def model(self, case, answers, impl_out):
+        if case.get("kind") == "links":
+            return self.links_model(case, answers, impl_out)
         if "raised" in impl_out or "invalid_input" in impl_out or "unmodelled" in impl_out:
             return impl_out  # the model has no syntactic weave: an exception of the real pass is judged by the oracle
         a = answers[0]
@@ -121,10 +189,12 @@ class C07(Prop):
 
     def stats_key(self, case, impl_out):
         if "unmodelled" in impl_out:
-            return "trace:oracle-only(" + impl_out["unmodelled"] + ")"
+            return case.get("kind", "trace") + ":oracle-only(" + impl_out["unmodelled"] + ")"
         return super().stats_key(case, impl_out)
 
     def nontrivial(self, case, impl_out):
+        if case.get("kind") == "links":
+            return "L" in impl_out and any(s for _, s in impl_out["infer"]) and ("scf.for" in case["src"] or "scf.if" in case["src"])
         return "prog" in impl_out and any(impl_out["points"]) and ("scf.for" in case["src"] or "scf.if" in case["src"])
 
     def mutants(self, case, rng):
